@@ -174,11 +174,12 @@ class ObsArrivalMixin(object):
         Q = self.simulation
         pop_node = len(customers(next_node))
         pop_sys = sum(len(customers(n)) for n in Q.transitive_nodes)
+        created_as = next_individual.customer_class
         super().release_individual(next_node, next_individual)
         at_exit = any(x is next_individual for x in Q.nodes[-1].all_individuals[-1:])
         rec = next_individual.data_records[-1] if next_individual.data_records else None
         Q.obslog.append(("admission", Q.current_time, next_node.id_number, next_individual, pop_node, pop_sys,
-                         at_exit, rec.record_type if (at_exit and rec is not None) else None))
+                         at_exit, rec.record_type if (at_exit and rec is not None) else None, created_as))
 
 
 class ObsArrivalNode(ObsArrivalMixin, ciw.ArrivalNode):
